@@ -49,7 +49,7 @@ type Case struct {
 
 var (
 	originPool = []string{"https://a.example", "https://b.example", "http://c.example:8080", "null"}
-	headerPool = []string{"Content-Type", "X-Custom", "Authorization", "X-Api-Key", "x-token", "content-language", "X-Token-2", "Accept"}
+	headerPool = []string{"Content-Type", "X-Custom", "Authorization", "X-Api-Key", "x-token", "content-language", "X-Token-2", "X-Cache~Key", "X_Req^Id", "Accept"}
 	patterns   = []string{"/a", "/b/{id}", "/c"}
 	witness    = map[string]string{"/a": "/a", "/b/{id}": "/b/7", "/c": "/c"}
 	methodSets = [][]string{{"GET"}, {"POST"}, {"GET", "POST"}, {"DELETE", "PUT"}, {"GET", "PATCH", "DELETE"}, nil}
@@ -85,7 +85,7 @@ func Gen(t *rapid.T) Case {
 	case 1:
 		c.Cfg.AllowHeaders = []string{"*"}
 	default:
-		c.Cfg.AllowHeaders = rapid.SliceOfNDistinct(rapid.SampledFrom(headerPool[:7]), 1, 4, rapid.ID[string]).Draw(t, "ah")
+		c.Cfg.AllowHeaders = rapid.SliceOfNDistinct(rapid.SampledFrom(headerPool[:9]), 1, 4, rapid.ID[string]).Draw(t, "ah")
 	}
 	if rapid.Bool().Draw(t, "hasExposed") {
 		c.Cfg.Exposed = rapid.SliceOfNDistinct(rapid.SampledFrom([]string{"X-Total", "Etag", "X-Rate"}), 1, 2, rapid.ID[string]).Draw(t, "exposed")
@@ -169,7 +169,16 @@ func Gen(t *rapid.T) Case {
 					lo := rapid.IntRange(0, len(base)-1).Draw(t, "nearLo")
 					hi := rapid.IntRange(lo+1, len(base)).Draw(t, "nearHi")
 					h = strings.Trim(base[lo:hi], "-")
-					if h == "" || rapid.IntRange(0, 3).Draw(t, "nearExt") == 0 {
+					switch rapid.IntRange(0, 5).Draw(t, "nearKind") {
+					case 0:
+						h = base + "-x"
+					case 1, 2:
+						// the same name with bit 5 of one byte flipped: another letter case, or another header altogether
+						b := []byte(base)
+						b[lo] ^= 0x20
+						h = string(b)
+					}
+					if h == "" {
 						h = base + "-x"
 					}
 				} else {
